@@ -341,9 +341,15 @@ class Ctx:
             if f in seen or not (COQ / f).exists():
                 continue
             seen.append(f)
-            for m in re.finditer(r"(?:From\s+V\s+)?Require\s+(?:Import|Export)?\s*([^.]*?)\.\s", (COQ / f).read_text()):
-                for mod in m.group(1).split():
-                    if mod.startswith("V."):
+            txt = re.sub(r"\(\*.*?\*\)", "", (COQ / f).read_text(), flags=re.S)
+            # `From V Require Import A.B C.D.` and `Require Import V.A.B.`: module names contain dots, the sentence ends
+            # with a dot followed by white space
+            for m in re.finditer(r"(?:From\s+([\w.]+)\s+)?Require\s+(?:Import\s+|Export\s+)?((?:[\w']+(?:\.[\w']+)*\s*)+)\.(?:\s|$)", txt):
+                prefix = m.group(1)
+                for mod in m.group(2).split():
+                    if prefix == "V":
+                        todo.append(mod.replace(".", "/") + ".v")
+                    elif mod.startswith("V."):
                         todo.append(mod[2:].replace(".", "/") + ".v")
         return sorted(seen)
 
